@@ -50,6 +50,12 @@ def generate(streams, tier):
             # a write that must be refused (and leave nothing behind); the history goes on afterwards
             ops.append(["refused", pool.get(vr, min_len=2), rng.choice(["fixed", "fixed_encoded", "padded"])])
             continue
+        if rng.random() < 0.03:
+            # a number the writer must refuse (nothing of it may surface in later writes)
+            k = rng.choice(INT_KINDS)
+            lim = {"char": 253, "short": 253 ** 2, "three": 253 ** 3, "int": 253 ** 4}[k]
+            ops.append(["refused_int", k, lim + rng.choice([0, 1, 252, lim - 1, vr.randrange(0, lim)])])
+            continue
         if rng.random() < 0.04:
             # sanitisation is switched on and off again with nothing written in between (what every generated
             # serializer with a <chunked> section does to the writer it is given): no effect on later writes
@@ -109,6 +115,13 @@ def execute(plan, env):
                     w.string_sanitization_mode = True
                 w.string_sanitization_mode = False
             res.count("probe.mode_toggled_back_between_writes")
+            continue
+        if k == "refused_int":
+            try:
+                getattr(w if step % 2 else EoWriter(), "add_" + o[1])(o[2])     # on this writer or on another one
+                return fail("not-refused", k, f"step {step}: add_{o[1]}({o[2]}) was accepted", step)
+            except ValueError:
+                res.count("probe.refused_write_in_history")
             continue
         if k == "flush":
             try:
@@ -196,7 +209,7 @@ def execute(plan, env):
                     r.chunked_reading_mode = True
                 r.chunked_reading_mode = False
             continue
-        if k in ("refused", "flush"):
+        if k in ("refused", "flush", "refused_int"):
             continue
         try:
             if k == "byte":
@@ -221,10 +234,10 @@ def execute(plan, env):
                         f"item {step} written as {o!r} read back as {got!r}, expected {want!r}", step)
     if r.remaining != 0 or r.position != len(out):
         return fail("not-consumed", "end", f"after reading everything remaining={r.remaining} position={r.position} len={len(out)}", len(ops))
-    kinds = [o[0] + ("P" if len(o) > 3 and o[3] else "") for o in ops if o[0] not in ("flush", "toggle")] + (["flush"] if taken else [])
+    kinds = [o[0] + ("P" if len(o) > 3 and o[3] else "") for o in ops if o[0] not in ("flush", "toggle", "refused_int")] + (["flush"] if taken else [])
     if len(ops) >= 2:
         classes = sorted({("y" if "ÿ" in o[1] else "") + ("u" if image(o[1]) != o[1] else "") + ("e" if not o[1] else "")
-                          for o in ops if isinstance(o[1], str) and o[0] not in ("refused", "flush", "toggle")})
+                          for o in ops if isinstance(o[1], str) and o[0] not in ("refused", "flush", "toggle", "refused_int")})
         res.keys.add(",".join(kinds[:3]) + "|" + "/".join(classes))
     res.digest = tr.digest()
     res.steps = tr.steps
